@@ -317,15 +317,24 @@ def run(ctx):
     # 2. implementation -> specification (driver started first: it runs while TLC works on step 1)
     drv = ctx.build_go("c15")
     n = ctx.pick(39, 806)     # multiples of 13: every scenario family (six AddTracker states, retransmission) is present
+    # round 3 (not yet enabled by default: no full quiet run on the unchanged tree yet): family 14 `completefail` - the download
+    # completes during the run and the announce carrying "completed" ends without an accepted reply; the retry carries no event
+    cfail = bool(os.environ.get("VERIF_C15_COMPLETEFAIL"))
+    fam = []
+    if cfail:
+        n = ctx.pick(42, 812)
+        fam = ["-families", "14"]
     tp = ctx.path("c15.ndjson")
-    join = start_driver(ctx, drv, ["-seed", str(ctx.seed), "-n", str(n), "-par", str(ctx.pick(10, 14)), "-out", tp, "-root", ctx.path("drv", "x")],
+    join = start_driver(ctx, drv, ["-seed", str(ctx.seed), "-n", str(n), "-par", str(ctx.pick(10, 14)), "-out", tp, "-root", ctx.path("drv", "x")] + fam,
                         ctx.pick(400, 1500))
     # 1. design level: the announcer machine implies the obligations for every environment; the as-is transcription does not
     mc_all(ctx, [("pass", "MC_Announce_ev.cfg", {}),
                  ("asis", "MC_Announce_ev_asis.cfg", {"expect_tag": "C15.gap"}),
                  ("asis", "MC_Announce_stop_asis.cfg", {"expect_tag": "C15.ev.stopped.member"}),
                  # BEP 15 retransmission as an environment action of the machine: a transaction answered by an error packet is finished
-                 ("mut", "MC_Announce_udp_mut_errkeep.cfg", {"expect_tag": "C15.id.retransmit.stale"})])
+                 ("mut", "MC_Announce_udp_mut_errkeep.cfg", {"expect_tag": "C15.id.retransmit.stale"})]
+           # a "completed" that stays pending after a failed announce and is sent again by the retry
+           + ([("mut", "MC_Announce_ev_mut_recomplete.cfg", {"expect_tag": "C15.ev.completed.twice"})] if cfail else []))
     results = join()
     drop_failed(ctx, results)
     L, scs, viols = validate(ctx, tp)
